@@ -123,6 +123,7 @@ fn run_graph<T: Fl>(ctx: &Ctx, g: &Graph<T>, dense: bool, total: &mut Collector)
 // ---------------------------------------------------------------------------------------
 // operators, blend modes and colour differences on boundary pairs
 
+mod cam;
 mod ops;
 
 macro_rules! with_graph {
@@ -172,6 +173,15 @@ fn replay(c: &mut Collector, rep: &Value) {
             let sig = rep["signature"].as_str().unwrap_or("C07/replay").to_string();
             with_graph!(group.as_str(), float.as_str(), |g| go(&g, &path, &what, &b, &sig, case, c));
         }
+        "cam16" => {
+            // small space: the sub-check is re-run and only the replayed signature kept
+            let ctx = Ctx { only: Some(format!("cam16/{}", float)), ..Ctx::from_args("C07").0 };
+            let mut all = Collector::new();
+            cam::run(&ctx, &mut all);
+            let want = rep["signature"].as_str().unwrap_or("").to_string();
+            all.viol.retain(|k, _| *k == want);
+            c.merge(all);
+        }
         _ => ops::replay(c, rep),
     }
 }
@@ -202,6 +212,7 @@ fn real_main() -> i32 {
     run_graph(&ctx, &pgd::e_f32(), dense, &mut total);
     run_graph(&ctx, &pgd::e_f64(), dense, &mut total);
     ops::run(&ctx, &mut total);
+    cam::run(&ctx, &mut total);
     ctx.finish(
         total,
         "model_checking",
